@@ -22,7 +22,7 @@ RULE = (
     "case = 1-2 files x 1-3 msms_run_summary x 1-6 spectrum_query x 1-4 search_hit, each with peptide, protein "
     "(accession + description), 0-3 alternative proteins with mixed decoy prefixes, 0-3 mod_aminoacid_mass at ascending "
     "positions (incl. positions >= 10 and masses of different text length), a per-document set of 1-4 search_score "
-    "names with values that avoid the log-transform heuristic, optional hit attributes in all hits or none, with/without "
+    "names with values that avoid the log-transform heuristic (plus an optional E-value-like score with exact zeros spanning many orders of magnitude, checked for order preservation), optional hit attributes in all hits or none, with/without "
     "XML namespace, element order variants; negative variants: Percolator score name, non-XML text, well-formed XML of another schema (mzML-, protXML-like, generic) alone or among valid files. Non-trivial: some "
     "hit has >=2 modifications or mixed target/decoy proteins, or the document has >=2 runs. Distinct = distinct JSON."
 )
@@ -32,7 +32,10 @@ ASSUMPTIONS = [
     "accessions contain no blanks or tabs; the decoy prefix is 'decoy_'",
 ]
 AA = "ACDEFGHIKLMNPQRSTVWY"
-SCORES = ["xcorr", "deltacn", "hyperscore", "nextscore", "spscore", "expect_like"]
+SCORES = ["xcorr", "deltacn", "hyperscore", "nextscore", "spscore", "expect_like", "expect"]
+# an E-value-like score: non-negative, many orders of magnitude, exact zeros (mokapot may log-transform such a column;
+# whatever it does must keep the order of the reported values)
+EVALUES = [0.0, 0.0, 1e-12, 2.5e-08, 3.2e-07, 0.00045, 0.0011, 0.02, 0.37, 1.5, 12.0, 250.0]
 
 
 PRELUDE_DOC = """<?xml version="1.0" encoding="UTF-8"?>
@@ -85,7 +88,7 @@ def _hit(draw, score_names):
         "protein_descr": draw(st.booleans()),
         "alts": [prefix() + acc() for _ in range(nalt)],
         "calc_mass": draw(st.integers(500000, 3000000)) / 1000.0,
-        "scores": {n: draw(st.integers(-5000, 50000)) / 1000.0 for n in score_names},
+        "scores": {n: (draw(st.sampled_from(EVALUES)) if n == "expect" else draw(st.integers(-5000, 50000)) / 1000.0) for n in score_names},
         "opt": [draw(st.integers(0, 3)), draw(st.integers(0, 2)), draw(st.integers(1, 5000))],
         "alt_first": draw(st.booleans()),
     }
@@ -255,6 +258,14 @@ def check(case):
                 require(abs(float(g["num_matched_peptides"]) - math.log10(e["opt"][2])) < 1e-12, "optional-attribute", f"hit {i}: num_matched_peptides")
             else:
                 require("missed_cleavages" not in g and "ntt" not in g, "optional-attribute", "absent attributes produced columns")
+        # every score column is a strictly increasing function of the reported value (identity, or a log transform
+        # that puts exact zeros below everything else)
+        for nme in case["score_names"]:
+            pairs = sorted((e["scores"][nme], float(g[nme])) for g, e in zip(recs, exp))
+            for (r1, f1), (r2, f2) in zip(pairs, pairs[1:]):
+                ok = (f1 == f2) if r1 == r2 else (f1 < f2)
+                require(ok and math.isfinite(f1) and math.isfinite(f2), "score-order",
+                        f"score {nme}: reported values {r1!r} < {r2!r} became features {f1!r}, {f2!r}")
         labels = [e["label"] for e in exp]
         if any(labels) and not all(labels):
             excl = case["score_names"][0] if (case.get("exclude") and len(case["score_names"]) >= 2) else None
@@ -281,4 +292,8 @@ def check(case):
         classes.append("multi-file")
     if case["opt_attrs"]:
         classes.append("optional-attrs")
+    if "expect" in case["score_names"]:
+        ev = [h["scores"]["expect"] for f in case["files"] for r in f["runs"] for s_ in r["spectra"] for h in s_["hits"]]
+        if 0.0 in ev and max(ev) > 0 and max(ev) / min(x for x in ev if x > 0) >= 1e4:
+            classes.append("evalue-score-with-zeros-wide-range")
     return {"nontrivial": multi_mod or mixed or multi_run, "classes": classes, "counters": {"hits_checked": len(exp)}}
